@@ -1,23 +1,26 @@
 /-
   C20 — A rejected call leaves no trace in later files.
 
-  Proved: a rejected add_* call (before or after the object registered itself) leaves all objects, origin
-  references, copy numbers and the header's origin untouched, and the set records written right afterwards are
-  those of the state before the call (the set it may have created is empty and empty sets are never written);
-  copy numbers of later objects depend on the registered objects only.
-  `history_without_rejected_calls`: for EVERY history, the objects, header origins and set records are those of the
-  history without its rejected calls, provided no add_origin call is rejected and different logical files name
-  different sets (the two known findings are exactly the cases outside these provisos).
-  PARTIAL: (a) the *order* of the set records may differ (an empty set created by a rejected call keeps its place
-  in the registry): the statement is about membership; (b) the second half of the property (a write
-  that raises leaves the specification able to produce the fresh file) is about values derived at write time
-  (known finding D6) and is checked by the oracle only.
+  Proved, for the state machine of `LogicalFile.add_*` (Model/Api.lean): a rejected add_* call (before or after the
+  object registered itself with its set) is the identity on the whole state — objects, origin references, copy
+  numbers, header origins, the set registries of every logical file — so the state after ANY history is the state
+  after the history without its rejected calls (`history_without_rejected_calls`), and with it everything a write
+  derives from the state: writability and the set records of every logical file, in their order.
+  (Until the repair recorded in KNOWN_FINDINGS.json — the set is registered with the logical file only once the
+  object exists — two provisos were needed here, and their necessity was proved by two witnesses; those theorems are
+  gone with the defect, and the harness histories that exhibited it now pass.)
+  PARTIAL: the second half of the property (a write that raises leaves the specification able to produce the fresh
+  file) is about values derived at write time and is checked by the streams `failed-write` / `refused-then-corrected`.
 -/
 import Dlismodel.Proofs.Api
 import Dlismodel.Proofs.ApiSim
 import Dlismodel.Proofs.Dataset
 namespace Dlis.C20
 open Dlis
+
+/-- one step: nothing changes -/
+theorem rejected_call_is_identity (w : World) (op : Op) (h : op.rejected = true) : step w op = w :=
+  rejected_is_identity w op h
 
 theorem rejected_leaves_objects (w : World) (op : Op) (h : op.rejected = true) :
     (step w op).items = w.items ∧ (step w op).headerOrigin = w.headerOrigin :=
@@ -27,72 +30,33 @@ theorem later_copy_numbers_unaffected (w : World) (op : Op) (h : op.rejected = t
     copyNumber (step w op) k n = copyNumber w k n :=
   copyNumber_items _ _ (rejected_keeps_items w op h).1 k n
 
-/-- the records of a file written right after a rejected call are unchanged.  `hlocal`: the set the call names
-is not one that only *other* logical files have put objects into (that is the shared-set configuration, which
-C18 shows is rejected at write anyway). -/
-theorem records_unchanged_item (w : World) (lf kind : Nat) (sn : Option PStr) (name : PStr) (oref : Option Int)
-    (out : Outcome) (hout : out ≠ .ok) (hlf : lf < w.keys.length)
-    (hlocal : (kind, normName sn) ∉ lfKeys w lf → itemsOfKey w (kind, normName sn) = []) (l : Nat) :
-    setRecords (step w (.item lf kind sn name oref out)) l = setRecords w l := by
-  simp only [step]
-  split
-  · rfl
-  · have : addItem w lf kind (normName sn) name oref out = touchKey w lf (kind, normName sn) := by
-      unfold addItem; cases out <;> simp_all
-    rw [this]
-    exact setRecords_touch_empty w l lf (kind, normName sn) hlf hlocal
-
-theorem records_unchanged_origin (w : World) (lf : Nat) (sn : Option PStr) (name : PStr) (oref : Option Int)
-    (out : Outcome) (hout : out ≠ .ok) (hlf : lf < w.keys.length)
-    (hlocal : (0, normName sn) ∉ lfKeys w lf → itemsOfKey w (0, normName sn) = []) (l : Nat) :
-    setRecords (step w (.origin lf sn name oref out)) l = setRecords w l := by
-  have : (addOrigin w lf (normName sn) name oref out).1 = touchKey w lf (0, normName sn) := by
-    unfold addOrigin
-    simp only
-    split
-    · rfl
-    · cases out <;> simp_all
-  simp only [step, this]
-  exact setRecords_touch_empty w l lf (0, normName sn) hlf hlocal
-
 /-- all steps: any number of rejected calls, anywhere in the history, before or after the objects they could have
-disturbed -/
-theorem history_without_rejected_calls (n : Nat) (ops : List Op) (hv : ∀ op ∈ ops, op.lf < n)
-    (hrej : ∀ op ∈ ops, op.rejected = true → op.isOrigin = false)
-    (hdisj : ∀ a ∈ ops, ∀ b ∈ ops, a.key = b.key → a.lf = b.lf) :
-    (run (World.init n) ops).items = (run (World.init n) (ops.filter fun o => !o.rejected)).items ∧
-    (run (World.init n) ops).headerOrigin = (run (World.init n) (ops.filter fun o => !o.rejected)).headerOrigin ∧
-    ∀ lf p, p ∈ setRecords (run (World.init n) ops) lf ↔
-      p ∈ setRecords (run (World.init n) (ops.filter fun o => !o.rejected)) lf :=
-  rejected_calls_invisible n ops hv hrej hdisj
+disturbed, through any logical file and naming any set: the state is that of the history without them -/
+theorem history_without_rejected_calls (w : World) (ops : List Op) :
+    run w ops = run w (ops.filter fun o => !o.rejected) :=
+  rejected_calls_invisible w ops
 
-/-- the provisos are met by a non-trivial history (two logical files, rejected calls of both kinds in between) -/
+/-- … hence so is everything a write takes from the state -/
+theorem later_files_unaffected (n : Nat) (ops : List Op) :
+    writable (run (World.init n) ops) = writable (run (World.init n) (ops.filter fun o => !o.rejected)) ∧
+    ∀ lf, setRecords (run (World.init n) ops) lf = setRecords (run (World.init n) (ops.filter fun o => !o.rejected)) lf := by
+  rw [← history_without_rejected_calls]
+  exact ⟨rfl, fun _ => rfl⟩
+
+/-- the histories that used to show a trace (a rejected add_origin naming a new set; a rejected call naming a set
+another logical file has objects in) are non-trivial instances -/
 example :
-    let ops : List Op := [.item 0 3 none [65] none .rejectLate, .origin 0 none [79] none .ok, .item 1 4 (some [83]) [66] none .rejectEarly,
-      .item 0 3 none [65] none .ok, .origin 1 (some [84]) [80] (some 5) .ok, .item 1 4 (some [83]) [66] none .ok]
-    (∀ op ∈ ops, op.lf < 2) ∧ (∀ op ∈ ops, op.rejected = true → op.isOrigin = false) ∧
-      (∀ a ∈ ops, ∀ b ∈ ops, a.key = b.key → a.lf = b.lf) := by decide
-
-/-- the first proviso cannot be dropped (known finding `rejected:trace:rejected-add_origin-created-its-set-first`):
-a rejected `add_origin` that named a new set leaves that set in front of the one holding the intended defining
-origin, so objects added later take another origin reference -/
-theorem rejected_add_origin_is_visible :
     let ops : List Op := [.origin 0 (some [88]) [82] none .rejectLate, .origin 0 none [79] none .ok,
       .origin 0 (some [88]) [80] (some 7) .ok, .item 0 3 none [65] none .ok]
-    (run (World.init 1) ops).items ≠ (run (World.init 1) (ops.filter fun o => !o.rejected)).items := by
+    (run (World.init 1) ops).items = (run (World.init 1) (ops.filter fun o => !o.rejected)).items ∧
+      (run (World.init 1) ops).items.length = 3 := by
   decide +kernel
 
-/-- nor the second (known finding `rejected:changes-writability:set-of-another-logical-file`): a rejected call
-through one logical file that names a set another logical file has objects in makes the write refuse -/
-theorem rejected_call_on_foreign_set_is_visible :
+example :
     let ops : List Op := [.origin 0 none [79] none .ok, .origin 1 (some [84]) [80] none .ok,
       .item 0 3 none [65] none .ok, .item 1 3 none [66] none .rejectLate]
-    writable (run (World.init 2) ops) = false ∧
-      writable (run (World.init 2) (ops.filter fun o => !o.rejected)) = true := by
+    writable (run (World.init 2) ops) = true := by
   decide +kernel
-
-example : setRecords (run (World.init 1) [.origin 0 none [79] none .ok, .item 0 5 none [90] none .rejectLate]) 0 =
-    setRecords (run (World.init 1) [.origin 0 none [79] none .ok]) 0 := by decide +kernel
 
 /-- "dataset names … of objects added later are as if the call had never been made": the data set names given to
 the accepted `add_channel` calls of any history are those the history gives without its rejected calls -/
